@@ -12,7 +12,7 @@ func histCases(tier string, seed int64, salt uint64, delBias []int, n int, order
 	r := rng.New(uint64(seed) ^ salt)
 	var cs []runner.Case
 	for i := 0; i < n; i++ {
-		h := Hist{Seed: r.U64(), Native: i%2 == 0, NInst: 2 + r.Intn(3), Ops: 10 + r.Intn(31), NKeys: 3 + r.Intn(4), NDBI: 1 + r.Intn(3), DelBias: delBias[i%len(delBias)], Padding: i%7 == 3, Orders: orders}
+		h := Hist{Seed: r.U64(), Native: i%2 == 0, NInst: 2 + r.Intn(3), Ops: 10 + r.Intn(31), NKeys: 3 + r.Intn(4), NDBI: 1 + r.Intn(3), DelBias: delBias[i%len(delBias)], Padding: i%7 == 3, Orders: orders, IntKeys: i%3 == 1}
 		if tier == "thorough" {
 			h.Ops = 20 + r.Intn(101)
 		}
@@ -29,7 +29,7 @@ func histCases(tier string, seed int64, salt uint64, delBias []int, n int, order
 	return cs
 }
 
-const driveRule = "direct drive of 2-4 real instances (real LMDB + real Syncer each) on one bucket: a PRNG schedule interleaves application puts/deletes (3-6 keys over 1-3 DBIs so that conflicts are the rule; values \"\", \"a\", \"b\", 300 bytes; native timestamps from {0,1,2,3,2^40}, monotone per key per instance, so equal timestamps on different instances, timestamp 0 and deletion-vs-empty-value ties occur in both arrival orders) " +
+const driveRule = "direct drive of 2-4 real instances (real LMDB + real Syncer each) on one bucket: a PRNG schedule interleaves application puts/deletes (3-6 keys over 1-3 DBIs so that conflicts are the rule; every third history has an additional MDB_INTEGERKEY DBI with keys 0, 1, 255, 256, 65536, 2^31, 2^32-1, whose byte order is not the DBI's order; values \"\", \"a\", \"b\", 300 bytes; native timestamps from {0,1,2,3,2^40}, monotone per key per instance, so equal timestamps on different instances, timestamp 0 and deletion-vs-empty-value ties occur in both arrival orders) " +
 	"with SendOnce uploads and LoadOnce merges of any stored snapshot of another instance (not necessarily the newest); then a closing phase (everyone uploads, everyone merges every newest snapshot, repeated until nothing changes). "
 
 func C01() *runner.Property {
